@@ -248,6 +248,9 @@ CHECKS["C14"] = dict(
     technique="rapid model-based testing of generated send/lost/busy/close histories (reference retained-window model, frame attribution), real clock",
     assumptions=_RTR_ASSUME,
     jobs=[dict(name="real", pkg="./rtr", go=GO, test="TestC14", shards=(6, 16), checks=(120, 2500), timeout=(600, 3000)),
+          # one lost indication (count above everything retained) racing a burst of 2..6 senders, nothing trimmed, nothing
+          # failing: the retransmissions must be the first m originals in order for an admissible m
+          dict(name="race", pkg="./rtr", go=GO, test="TestC14Race", shards=(4, 16), checks=(40, 800), timeout=(600, 3000)),
           # the real constructors (knx.NewRouter / NewGroupRouter) over multicast with loopback: send, lost -> resend, receive, Close
           dict(name="conformance", pkg="./sock", go=GO, test="TestConformanceRouter", shards=(2, 8), checks=(12, 150), timeout=(600, 3000))],
 )
@@ -379,8 +382,11 @@ CHECKS["C12"] = dict(
                 "decoder (group flag, hop count 6, low priority, standard-frame flag <=> payload <= 15 bytes, application code, payload, "
                 "addresses, exactly one frame per Send); inbound events must equal the reference filter-map of the injected stream in "
                 "order; end-to-end equality up to the two wire-format exceptions; the group channel closes with the client."),
-    level_note="Trusted: harness/common/ref.go (reference decoder), memsock, the hook constructors VerifNewGroupTunnel / VerifNewGroupRouter.",
+    level_note="Trusted: harness/common/ref.go (reference decoder), memsock, the hook constructors VerifNewGroupTunnel / VerifNewGroupRouter. The end-to-end clause is additionally run through knx.NewGroupRouter / knx.NewGroupTunnel over kernel sockets (job sock: every payload length 1..254 once per client kind, plus drawn sequences with a bias to 240..254 bytes).",
     technique="enumeration + rapid-generated events and message streams; differential against an independent reference decoder and a reference filter-map",
     assumptions=_RTR_ASSUME[:1],
-    jobs=[dict(name="real", pkg="./rtr", go=GO, test="TestC12", shards=(2, 16), checks=(1500, 20000), timeout=(600, 3000))],
+    jobs=[dict(name="real", pkg="./rtr", go=GO, test="TestC12", shards=(2, 16), checks=(1500, 20000), timeout=(600, 3000)),
+          # through the real constructors and kernel sockets: GroupRouter -> GroupRouter over multicast loopback and
+          # GroupTunnel -> loopback gateway -> back; every payload length 1..254 once, then drawn event sequences
+          dict(name="sock", pkg="./sock", go=GO, test="TestC12Sock", shards=(2, 8), checks=(20, 400), timeout=(600, 3000))],
 )
